@@ -39,11 +39,12 @@ def small_sec(name, depth):
 def link_spec(draw, i):
     tname = "target%d" % i
     target = draw(small_sec(tname, 2))
-    kind = draw(st.sampled_from(["link_abs", "link_rel", "link_rel", "include"]))
+    kind = draw(st.sampled_from(["link_abs", "link_rel", "link_rel", "include", "include"]))
     regime = draw(st.sampled_from(["restore", "restore", "overlap"]))
     own = draw(small_sec("linking%d" % i, 1))
     return {"target": target, "kind": kind, "regime": regime, "own": own,
             "t_at": draw(st.integers(0, 30)), "l_at": draw(st.integers(0, 30)),
+            "decoy": draw(st.booleans()),
             "l_has_defs": draw(st.booleans())}
 
 
@@ -55,7 +56,7 @@ def cases(draw, max_depth):
     links = [draw(link_spec(i)) for i in range(n)]
     seq = draw(st.lists(st.sampled_from(["finalize", "clean", "saveload", "finalize", "clean"]),
                         min_size=2, max_size=7))
-    return {"doc": doc, "links": links, "seq": ["finalize", "clean"] + seq}
+    return {"doc": doc, "links": links, "seq": ["finalize"] + seq + ["clean"]}
 
 
 # ------------------------------------------------------------------------------------
@@ -155,13 +156,23 @@ def setup(case, tmpdir):
             for ch in list(list.__iter__(linking.properties)):
                 ch.name = "own~~" + ch.name
         lpar.append(linking)
+        # a sibling placed before the target whose name differs from the target's only in case
+        decoy = None
+        if ls.get("decoy"):
+            decoy = odml.Section(name=target.name.upper(), type="decoy")
+            odml.Section(name="decoy-child", type="t", parent=decoy)
+            odml.Property(name="decoy-prop", values=["d"], parent=decoy)
         if ls["kind"] == "include":
             if ext_doc is None:
                 ext_doc = odml.Document(author="external")
                 holder = odml.Section(name="holder", type="t", parent=ext_doc)
             holder = ext_doc.sections["holder"]
+            if decoy is not None:
+                holder.append(decoy)
             holder.append(target)
         else:
+            if decoy is not None:
+                tpar.append(decoy)
             tpar.append(target)
         info.append({"linking": linking, "target": target, "kind": ls["kind"], "regime": ls["regime"]})
     ext_path = None
